@@ -114,10 +114,10 @@ func runC15(c *rt.Ctx) {
 			window = append(window, o+int64(i))
 		}
 	}
-	add(1999, 12, 28, 8)  // year boundary
-	add(2000, 2, 26, 6)   // leap day
-	add(2100, 2, 26, 5)   // century non-leap
-	add(2019, 8, 3, 3)    // same month, different years, crossing day order
+	add(1999, 12, 28, 8) // year boundary
+	add(2000, 2, 26, 6)  // leap day
+	add(2100, 2, 26, 5)  // century non-leap
+	add(2019, 8, 3, 3)   // same month, different years, crossing day order
 	add(2019, 8, 9, 3)
 	add(2020, 8, 3, 4)
 	add(2020, 8, 14, 3)
